@@ -257,6 +257,9 @@ func main() {
 	for i := 0; i < nconc; i++ {
 		n := 2 + r.Intn(5)
 		g, per := 2+r.Intn(7), 50+r.Intn(200)
+		if i%2 == 1 {
+			g, per = 8+r.Intn(9), 20000+r.Intn(20000) // long contended runs: lost updates need many overlaps to show
+		}
 		ch := chunks[2+r.Intn(len(chunks)-2)]
 		parts := iota(n)
 		rr := &kafka.RoundRobin{ChunkSize: ch}
